@@ -538,10 +538,75 @@ def _raises_unless_isinstance(fn: FunctionInfo, ty: str, partial: bool = False) 
 
 
 # ----------------------------------------------------------------------------------------------- R15.4
+@_ioe
+def _vrh_folded(ctx) -> Optional[List[str]]:
+    """Fold validate_registry_header on a probe registry (a required str first, an optional int, an optional list[str], a required str LAST) and probe
+    headers: ValueError exactly when (check_required and a required name is missing - wherever it stands in the registry) or a PRESENT member - null,
+    empty and zero included - fails its validator; names the registry does not know are ignored.  None when inconclusive (DESIGN 11.11)."""
+    from ..fold import FuncVal, FoldRaise, is_unknown
+    eng = ctx.eng
+    P, F = eng.prog, eng.folder
+    fn = P.func("registry:validate_registry_header")
+    HP = P.cls("registry:HeaderParameter")
+    problems: List[str] = []
+    F.start_trace()
+    try:
+        reg = {"alg": F.instantiate(HP, ["A", "str", True], {}), "n": F.instantiate(HP, ["N", "int"], {}), "l": F.instantiate(HP, ["L", "list[str]"], {}),
+               "x-req": F.instantiate(HP, ["X", "str", True], {})}
+        if any(is_unknown(F.get_attr(v_, "validate")) or F.get_attr(v_, "required") not in (True, False) for v_ in reg.values()):
+            return None
+        spec = {"alg": (str, True), "n": (int, False), "l": (list, False), "x-req": (str, True)}
+        headers = [{}, {"alg": "a"}, {"x-req": "v"}, {"alg": "a", "x-req": "v"}, {"alg": "a", "n": 1, "x-req": "v"}, {"alg": "a", "n": 0, "x-req": "v"}, {"alg": "a", "n": "1", "x-req": "v"},
+                   {"alg": "a", "n": None, "x-req": "v"}, {"alg": None, "x-req": "v"}, {"alg": "", "x-req": ""}, {"alg": "a", "l": [], "x-req": "v"}, {"alg": "a", "l": ["x", 1], "x-req": "v"},
+                   {"alg": "a", "l": None, "x-req": "v"}, {"alg": "a", "x-req": None}, {"alg": "a", "x-req": "v", "zz": [1]}, {"zz": 1, "alg": "a", "typ": "JWT"}, {"alg": 1, "x-req": "v"}]
+        for hdr in headers:
+            for cr in (True, False, None):
+                def ok_member(k):
+                    v_ = hdr[k]
+                    ty = spec[k][0]
+                    if ty is list:
+                        return isinstance(v_, list) and all(isinstance(x_, str) for x_ in v_)
+                    return isinstance(v_, ty)
+                required = True if cr is None else cr
+                want_ok = all(ok_member(k) for k in hdr if k in spec) and (not required or all(k in hdr for k, (_t, rq) in spec.items() if rq))
+                args = [reg, dict(hdr)] + ([] if cr is None else [cr])
+                try:
+                    r = F.call(FuncVal(fn, None, None), args, {})
+                    if is_unknown(r):
+                        return None
+                    got = "ok"
+                except FoldRaise as ex:
+                    got = getattr(ex, "name", "") or "?"
+                where = f"header {hdr!r}, check_required={'default' if cr is None else cr}"
+                if want_ok and got != "ok":
+                    problems.append(f"refuses a valid header ({where}: {got})")
+                elif not want_ok and got == "ok":
+                    problems.append(f"accepts {where}")
+                elif not want_ok and got != "ValueError":
+                    problems.append(f"refuses {where} with {got}, not ValueError")
+    finally:
+        sided = F.one_sided(ignore=(".__init__",))
+    return None if sided else problems
+
+
 def r15_4(ctx) -> None:
     eng = ctx.eng
     P = eng.prog
     # validate_registry_header
+    v = P.func("registry:validate_registry_header")
+    folded = _vrh_folded(ctx)
+    if folded is not None:
+        ctx.check(not folded, "R15.4", v, v.node, "validate_registry_header (folded on probe registries / headers)", "validate_registry_header " + "; ".join(folded[:2]),
+                  "required names enforced wherever they stand; every present member validated; unknown names ignored", construct="validate_registry_header verdicts")
+        _r15_4_rest(ctx)
+        return
+    _r15_4_shape(ctx)
+    _r15_4_rest(ctx)
+
+
+def _r15_4_shape(ctx) -> None:
+    eng = ctx.eng
+    P = eng.prog
     v = P.func("registry:validate_registry_header")
     cfg = cfg_of(v)
     rp, hp = v.pos_params[0], v.pos_params[1]
@@ -598,6 +663,11 @@ def r15_4(ctx) -> None:
                 ok_val = False
     ctx.check(ok_val, "R15.4", v, v.node, "validate_registry_header :: type validation", "a present parameter is not always validated, or a validation failure is swallowed",
               "reg.validate(header[key]) for every present key; errors re-raised", construct="type validation of present parameters")
+
+
+def _r15_4_rest(ctx) -> None:
+    eng = ctx.eng
+    P = eng.prog
     # check_crit_header
     c = P.func("registry:check_crit_header")
     cfg = cfg_of(c)
